@@ -261,16 +261,34 @@ def semiring_for(kind, dtype=None):
             'mp': lambda: ViterbiSemiring(dtype=dtype), 'bool': lambda: BoolSemiring()}[kind]()
 
 
-def project_tensor(t, kind):
-    """Observed dense tensor -> flat list on the exact carrier (see common.snap_*)."""
-    from .common import snap_int, snap_exp
-    flat = t.reshape(-1).tolist()
-    if kind == 'real':
-        return [snap_int(float(x)) for x in flat]
-    if kind == 'log':
-        return [snap_exp(float(x)) for x in flat]
-    if kind == 'mp':
-        return [snap_int(float(x)) for x in flat]
+def project_value(x, kind, dtype=None):
+    """Observed float -> interval [lo, hi] of carrier values it is compatible with."""
+    import torch
+    from .common import snap_int, NAN, NONINT
     if kind == 'bool':
-        return [1 if x else 0 for x in flat]
-    raise ValueError(kind)
+        v = 1 if x else 0
+        return [v, v]
+    x = float(x)
+    if kind in ('real', 'mp'):
+        v = snap_int(x)
+        return [v, v]
+    # log: naturals n with |x - ln n| <= tol
+    if math.isnan(x):
+        return [NAN, NAN]
+    if x == math.inf:
+        return [INF, INF]
+    if x == -math.inf:
+        return [0, 0]
+    tol = (1e-4 if dtype == torch.float32 else 1e-9) * max(1.0, abs(x))
+    if x + tol > 13.7:     # exp > 890000: outside the carrier
+        return [NONINT, NONINT]
+    lo = math.ceil(math.exp(x - tol))
+    hi = math.floor(math.exp(x + tol))
+    if lo > hi:
+        return [NONINT, NONINT]
+    return [int(lo), int(hi)]
+
+
+def project_tensor(t, kind, dtype=None):
+    """Observed dense tensor -> flat row-major list of intervals on the exact carrier."""
+    return [project_value(x, kind, dtype) for x in t.reshape(-1).tolist()]
